@@ -774,7 +774,18 @@ def binary_level(ctx, exe):
                 fails.append(dict(what="the server emits a frame whose Content-Length is not the byte length of its JSON body",
                                   session_text=t, input=data.decode("utf-8"), cuts=[], problems=again[0]["frame_problems"]))
             elif not all(same(a, again[0]) and a["eof"] for a in again):
-                ctx.cov.setdefault("notes", []).append("session %d: unsegmented runs are not reproducible; skipped" % si)
+                stuck = all(not a["eof"] for a in again) and si in frame_cuts
+                ref = [observe(exe, data, frame_cuts[si], timeout=15.0, delay=0.1) for _ in range(2)] if stuck else []
+                runs += len(ref)
+                if stuck and all(r["eof"] for r in ref):
+                    # written in one piece the session never completes, written message by message it does
+                    fails.append(dict(what="the server does not complete the session when it arrives in a single write, but does when "
+                                           "the same bytes arrive one message per write",
+                                      session_text=t, input=data.decode("utf-8"), cuts=frame_cuts[si],
+                                      unsegmented=dict(messages=again[0]["msgs"], exit_code=again[0]["code"], eof=again[0]["eof"]),
+                                      segmented=dict(messages=ref[0]["msgs"], exit_code=ref[0]["code"], eof=ref[0]["eof"]), problems=[]))
+                else:
+                    ctx.cov.setdefault("notes", []).append("session %d: unsegmented runs are not reproducible; skipped" % si)
                 bases[-1] = None
             else:
                 bases[-1] = again[0]
